@@ -292,8 +292,44 @@ def nmea_first_letters():
     return _NMEA_FIRST
 
 
+def nmea_long(rng):
+    """Legal sentences far beyond 82 characters (u-blox PUBX,03 lists up to ~50 satellites; long TXT)."""
+    if rng.random() < 0.6:
+        nsv = rng.choice((12, 20, 28, 36, 50, 90))
+        sats = b",".join(b"%d,%s,%03d,%02d,%02d,%03d" % (i + 1, rng.choice((b"U", b"e", b"-")), rng.randrange(360), rng.randrange(90), rng.randrange(50), rng.randrange(64)) for i in range(nsv))
+        content = b"PUBX,03,%d," % nsv + sats
+    else:
+        content = b"GNTXT,01,01,02," + bytes(rng.choice(b"ABCDEFGHIJKLMNOPQRSTUVWXYZ0123456789 ") for _ in range(rng.choice((100, 300, 520, 1100, 2300))))
+    return wire.nmea_sentence(content), f"nmea long {len(content)}"
+
+
+def nmea_runaway(rng):
+    """A recognised NMEA header followed by a long stretch without LF (a binary blob after a stray '$G'), then LF."""
+    n = rng.choice((300, 600, 2100, 4200, 9000))
+    alpha = bytes(b for b in range(256) if b != 0x0A)
+    first = rng.choice(nmea_first_letters())
+    return b"$" + first + bytes(rng.choice(alpha) for _ in range(n)) + b"\n", f"runaway line {n}"
+
+
+TEXT_PREAMBLES = (
+    b"ICY 200 OK\r\n\r\n",
+    b"HTTP/1.1 200 OK\r\nNtrip-Version: Ntrip/2.0\r\nContent-Type: gnss/data\r\n\r\n",
+    b"SOURCETABLE 200 OK\r\nServer: sim\r\n\r\nENDSOURCETABLE\r\n",
+    b"\r\n\r\n",
+    b"u-blox AG - www.u-blox.com\r\nHW UBX-M8030 00080000\r\n\r\n",
+    b"AT+CGNSINF\r\r\n+CGNSINF: 1,1\r\n\r\nOK\r\n",
+)
+
+
+def text_preamble(rng):
+    """Text that precedes or interrupts GNSS data on real links (NTRIP/HTTP response headers, boot banners, modem chatter)."""
+    return rng.choice(TEXT_PREAMBLES), "text preamble"
+
+
 def nmea_any(rng, serial=None):
     """(sentence bytes, note). Always LF-terminated, no LF inside, '$'+recognised letter."""
+    if rng.random() < 0.03:
+        return nmea_long(rng)
     firsts = nmea_first_letters()
     if rng.random() < 0.2:
         tmpl = rng.choice(_NMEA_PROP)
